@@ -112,12 +112,17 @@ fn c14_prosody_keeps_segments() {
 }
 """, arms=props_c05.arms9("sy.apply_syll_mods(&alphas, &SupraSegs { stress: @M@, length: [None, None], tone: nt }, P)", "stress")),
         functions=["Syllable::apply_syll_mods"], symbolic="3 bundles (any, also equal neighbours), stress, tones, 9 stress combinations, optional new tone", shape="[a b b c], stress/tone output on the syllable", unwind=unwind, stubs=STUBS))
-    hs.append(G.H("c14_prosody_on_segment_keeps_segments", "prosodic-change-keeps-segments", "syll", G.T(HDR + """
-fn c14_prosody_on_segment_keeps_segments() {
-    // [±stress]/[tone:n] given on a *segment* (V > [+stress]): routed through apply_seg_mods -> apply_supras
+    for L in (1, 2, 3):
+        segs = ", ".join(["x"] + ["a"] * L + ["y"])
+        checks = " && ".join(["sy.segments.len() == %d" % (L + 2), "sy.segments[0] == x"] + ["sy.segments[%d] == a" % (i + 1) for i in range(L)] + ["sy.segments[%d] == y" % (L + 1)])
+        nm = "c14_prosody_on_segment_keeps_segments_%d" % L
+        hs.append(G.H(nm, "prosodic-change-keeps-segments", "syll", G.T(HDR + """
+fn @name@() {
+    // [±stress]/[tone:n] given on a *segment* (V > [+stress]): routed through apply_seg_mods -> apply_supras; the run of
+    // @L@ identical segments (short / long / overlong) must come out with the same number of copies
     let a = any_seg(); let x = any_seg(); let y = any_seg();
     kani::assume(a != x && a != y);
-    let mut sy = syll_of(&[x, a, a, y], any_stress(), kani::any());
+    let mut sy = syll_of(&[@segs@], any_stress(), kani::any());
     let alphas: RefCell<HashMap<char, Alpha>> = RefCell::new(HashMap::new());
     let mut m = mods_new();
     let k: u8 = kani::any();
@@ -129,11 +134,11 @@ fn c14_prosody_on_segment_keeps_segments() {
         _ => { m.suprs.stress = [bin(false), bin(false)]; m.suprs.tone = Some(nt); sy.apply_seg_mods(&alphas, &m, 1, P) }
     };
     match r { Ok(lc) => assert!(lc == 0, "role=prosodic-change-reports-length-change"), Err(_) => assert!(false, "role=unexpected-error") }
-    assert!(sy.segments.len() == 4 && sy.segments[0] == x && sy.segments[1] == a && sy.segments[2] == a && sy.segments[3] == y, "role=prosodic-change-alters-segments");
+    assert!(@checks@, "role=prosodic-change-alters-segments");
     kani::cover!(k == 1);
     std::mem::forget(alphas); std::mem::forget(sy);
 }
-"""), functions=["Syllable::apply_seg_mods", "Syllable::apply_supras", "Syllable::apply_syll_mods"], symbolic="bundles, stress, tones", shape="[x a a y], stress/tone output on the long segment", unwind=unwind, stubs=STUBS, weight=2))
+""", name=nm, L=L, segs=segs, checks=checks), functions=["Syllable::apply_seg_mods", "Syllable::apply_supras", "Syllable::apply_syll_mods"], symbolic="bundles, stress, tones", shape="[%s], stress/tone output on the run of %d" % (segs, L), unwind=unwind, stubs=STUBS, weight=2))
 
     hs.append(G.H("c14_twin_reach", "vacuity-twin", "syll", G.T(HDR + """
 fn c14_twin_reach() {
